@@ -74,7 +74,7 @@ _PURE_BUILTINS = {"len": len, "abs": abs, "max": max, "min": min, "round": round
                   "any": any, "all": all, "sum": sum, "range": range, "enumerate": enumerate, "zip": zip,
                   "list": list, "tuple": tuple, "set": set, "frozenset": frozenset, "dict": dict,
                   "int": int, "float": float, "str": str, "bool": bool, "repr": repr, "reversed": reversed,
-                  "type": type, "hasattr": None, "id": id}
+                  "type": type, "hasattr": None, "id": id, "format": format, "divmod": divmod, "ord": ord, "chr": chr}
 
 
 class Synth:
